@@ -6,8 +6,9 @@ CONSTANTS
   NoteSet = {0, 1}
   MaxNet = 3
   MaxBlobs = 2
+  MaxClock = 2
   Weaken = "none"
 VIEW MCView
 INVARIANTS Invs
-PROPERTIES AcceptNeedsKey GenStable DispatchIsDisjunction
+PROPERTIES AcceptNeedsKey GenStable DispatchIsDisjunction NotExpired ClockMonotone
 CHECK_DEADLOCK FALSE
